@@ -321,6 +321,7 @@ def viabound(x):
 
 import %(pkg)s.other as cfg
 import %(pkg)s.other2 as cfg2
+import %(pkg)s.lazy as lz
 
 @m.memento_function(cluster=CL)
 def viaattr(x):
@@ -331,7 +332,7 @@ def viaattr(x):
 def twice(x):
     REC.hit("twice", x)
     if x < -1000:
-        return cfg.later(x) + cfg2.later(x) + later(x)
+        return cfg.later(x) + cfg2.later(x) + later(x) + lz.later(x)
     return x
 """
 REBIND_OTHER = """import twosigma.memento as m
@@ -385,11 +386,22 @@ REBINDS = {  # statement executed in the main module, after versions were asked 
     "opaque_list_changed_in_place": ["FACTOR = [{1, 2}]", "FACTOR[0] = 5"],
     # ... a helper's name is bound to a function of another package, then to a function of the program
     "helper_name_to_a_foreign_function_and_back": ["import json\nscale = json.dumps", "scale = scale2"],
+    # ... an undefined attribute starts being served by the module's __getattr__
+    "late_attribute_served_by_a_module_getattr": ["lz._LATE[\"later\"] = scale2"],
     # ... the list that a module-level partial clone binds is changed in place
     "argument_bound_by_a_partial_clone_changed_in_place": ["LIMITS.append(3)"],
     # ... the name of a plain helper is re-bound to an array
     "helper_name_to_an_array": ["import numpy as _np\nscale = _np.arange(3)"],
 }
+REBIND_LAZY = """# a module that serves some of its attributes on demand
+_LATE = {}
+
+def __getattr__(name):
+    try:
+        return _LATE[name]
+    except KeyError:
+        raise AttributeError(name)
+"""
 REBIND_OTHER3 = REBIND_OTHER + """
 def later(x):
     return x %(op)s 11
@@ -465,6 +477,8 @@ def run_rebind(case):
                 f.write(REBIND_OTHER2 % params)
             with open(os.path.join(d, "other3.py"), "w") as f:
                 f.write(REBIND_OTHER3 % params)
+            with open(os.path.join(d, "lazy.py"), "w") as f:
+                f.write(REBIND_LAZY)
             with open(os.path.join(d, "main.py"), "w") as f:
                 f.write(REBIND_MAIN % params + tail)
 
@@ -472,7 +486,8 @@ def run_rebind(case):
         stmt_text = "\n".join(REBINDS[how]) if isinstance(REBINDS[how], list) else REBINDS[how]
         write(sc.path("fresh"), "\n" + stmt_text % {"pkg": pkg} + "\n")
         try:
-            first = {"variable_of_the_other_module": "total", "argument_bound_by_a_partial_clone_changed_in_place": "viabound"}.get(how)
+            first = {"variable_of_the_other_module": "total", "argument_bound_by_a_partial_clone_changed_in_place": "viabound",
+                     "late_attribute_served_by_a_module_getattr": "twice"}.get(how)
             live = procs.in_child(rebind_child, {"root": sc.path("live"), "pkg": pkg, "how": how, "live": True,
                                                 "call_first": rng.random() < 0.5, "order": rng.random() < 0.5, "first": first})
             fresh = procs.in_child(rebind_child, {"root": sc.path("fresh"), "pkg": pkg, "how": how, "first": first})
